@@ -355,7 +355,14 @@ impl<'a> Machine<'a> {
                                     }
                                     K::ResumeLabel(l) => {
                                         if info.proc_ix != 0 {
-                                            inexact("RESUME label out of a subprogram")
+                                            // every active subprogram ends; the module-level invocation of `run` goes on at the label
+                                            match self.label_pc(0, l) {
+                                                Ok(t) => {
+                                                    self.pending_stop = Some(Stop::ResumeAt(t));
+                                                    Err(RErr::Inexact("__stop__".into()))
+                                                }
+                                                Err(e) => Err(e),
+                                            }
                                         } else {
                                             cur_px = 0;
                                             cur_fx = 0;
@@ -399,6 +406,17 @@ impl<'a> Machine<'a> {
                 Ok(()) => pc = next,
                 Err(RErr::Inexact(m)) if m == "__stop__" => {
                     let stop = self.pending_stop.take().unwrap_or(Stop::Undecided("lost stop".into()));
+                    if let Stop::ResumeAt(t) = stop {
+                        if px == 0 && self.depth == 0 {
+                            // pending GOSUBs of the ended subprograms end with them
+                            self.gosub.retain(|(gpx, _)| *gpx == 0);
+                            cur_px = 0;
+                            cur_fx = 0;
+                            pc = t;
+                            continue;
+                        }
+                        return Err(Stop::ResumeAt(t));
+                    }
                     return Err(match stop {
                         Stop::Error { code, stmt, mut sites } => {
                             sites.push(self.stmt_id_at(cur_px, pc));
@@ -1065,6 +1083,7 @@ pub fn run_reference(prog: &Prog, stdin: &[u8], pre_files: &[(String, Vec<u8>)])
         Ok(()) | Err(Stop::Halt) => REnd::Normal,
         Err(Stop::Error { code, stmt, sites }) => REnd::Error { code, stmt, sites },
         Err(Stop::Undecided(m)) => REnd::Undecided(m),
+        Err(Stop::ResumeAt(_)) => REnd::Undecided("RESUME label left unanswered".into()),
     };
     let mut out = std::mem::take(&mut m.out);
     out.end = Some(end);
